@@ -1,12 +1,14 @@
 package props
 
 import (
+	"context"
 	"fmt"
 	"testing"
 
 	"verif/evid"
 	"verif/kit"
 
+	"github.com/junioryono/godi/v4"
 	"pgregory.net/rapid"
 )
 
@@ -691,6 +693,101 @@ func TestC04Kinds(t *testing.T) {
 				return
 			}
 			rt.Fatalf("VIOLATION %s\n%s", f, canon)
+		}
+	})
+}
+
+// TestC04AliasShapes: "services registered under interface aliases ... are
+// resolvable under exactly those identities". Whatever shape the aliased
+// service has - a constructor returning a pointer, a constructor returning a
+// struct by value, an instance value - a registration that is accepted must be
+// resolvable under each alias; a shape that cannot be served (a struct value of
+// which only the pointer has the interface's methods) has to be refused when it
+// is registered, not when somebody asks for it.
+func TestC04AliasShapes(t *testing.T) {
+	col := evid.New("C04", "alias-shapes", "one registration with 1-2 interface aliases (godi.As), optionally named or grouped, of every lifetime, whose service is a constructor returning a pointer / a struct by value whose value type implements the interfaces / a struct by value of which only the pointer implements them, or an instance of those; oracle: the registration is rejected, or Build succeeds and every alias identity resolves (from the provider and from a scope, through Get* and the typed helpers) to a non-nil value of the interface type; non-trivial = a by-value shape")
+	defer col.Flush()
+	rapid.Check(t, func(rt *rapid.T) {
+		shape := rapid.IntRange(0, 5).Draw(rt, "shape")
+		var svc any
+		names := []string{"ctor-pointer", "ctor-value-implements", "ctor-value-pointer-implements", "instance-pointer", "instance-value-implements", "instance-value-pointer-implements"}
+		switch shape {
+		case 0:
+			svc = func() *kit.N0 { return &kit.N0{} }
+		case 1:
+			svc = func() kit.N4 { return kit.N4{B: &kit.Base{}} }
+		case 2:
+			svc = func() valSvc { return valSvc{} }
+		case 3:
+			svc = &kit.N0{}
+		case 4:
+			svc = kit.N4{B: &kit.Base{}}
+		case 5:
+			svc = valSvc{}
+		}
+		life := rapid.IntRange(0, 2).Draw(rt, "life")
+		opts := []godi.AddOption{godi.As[kit.I0]()}
+		two := rapid.Bool().Draw(rt, "twoAliases")
+		if two {
+			opts = append(opts, godi.As[kit.I1]())
+		}
+		key, group := "", ""
+		switch rapid.IntRange(0, 2).Draw(rt, "ident") {
+		case 1:
+			key = "a"
+			opts = append(opts, godi.Name(key))
+		case 2:
+			group = "g"
+			opts = append(opts, godi.Group(group))
+		}
+		canon := fmt.Sprintf("%s life=%d aliases=%d key=%q group=%q", names[shape], life, len(opts), key, group)
+		col.Case(shape == 1 || shape == 2 || shape == 4 || shape == 5, canon, canon, "shape:"+names[shape])
+		c := godi.NewCollection()
+		var err error
+		switch life {
+		case 0:
+			err = c.AddSingleton(svc, opts...)
+		case 1:
+			err = c.AddScoped(svc, opts...)
+		default:
+			err = c.AddTransient(svc, opts...)
+		}
+		if err != nil {
+			return // refused at registration: nothing is registered, nothing to resolve
+		}
+		p, err := c.Build()
+		if err != nil {
+			rt.Fatalf("VIOLATION C04/identity-resolvable [alias-shape/build]: the registration was accepted but Build fails: %v\n%s", firstLine(err), canon)
+		}
+		defer p.Close()
+		sc, err := p.CreateScope(context.Background())
+		if err != nil {
+			rt.Fatalf("CreateScope: %v", err)
+		}
+		defer sc.Close()
+		for _, tgt := range []godi.Provider{p, sc} {
+			var v any
+			var rerr error
+			switch {
+			case group != "":
+				var vs []kit.I0
+				vs, rerr = godi.ResolveGroup[kit.I0](tgt, group)
+				if rerr == nil && len(vs) == 1 {
+					v = vs[0]
+				}
+			case key != "":
+				v, rerr = godi.ResolveKeyed[kit.I0](tgt, key)
+			default:
+				v, rerr = godi.Resolve[kit.I0](tgt)
+			}
+			if rerr != nil || v == nil {
+				rt.Fatalf("VIOLATION C04/identity-resolvable [alias-shape/%s]: registered under the alias I0 (accepted, built), but resolving I0 yields %v, %v\n%s", names[shape], v, firstLine(rerr), canon)
+			}
+			if two && group == "" && key == "" {
+				if v1, e1 := godi.Resolve[kit.I1](tgt); e1 != nil || v1 == nil {
+					rt.Fatalf("VIOLATION C04/identity-resolvable [alias-shape/%s/second]: resolving the second alias I1 yields %v, %v\n%s", names[shape], v1, firstLine(e1), canon)
+				}
+			}
 		}
 	})
 }
